@@ -4,7 +4,7 @@ import random
 from harness import common as C
 
 RULE_FILES = ["Rules/RealPrelude.v", "Rules/ScalarRules.v", "Rules/Complex.v", "Containers/VSpace.v",
-              "Containers/VSpaceProof.v", "Array/Broadcast.v", "Array/Run01.v", "Array/MatMul.v", "Array/Index.v", "Array/Select.v", "Array/RunSel.v", "Rules/Stats.v", "Rules/StatsProof.v", "Array/RunStats.v", "Array/Bilinear.v", "Array/RunBil.v", "Rules/ComplexRing.v", "Array/RunBilC.v", "Array/Realified.v", "Array/RunReal.v", "Array/LinAlg.v", "Array/RunLin.v"]
+              "Containers/VSpaceProof.v", "Array/Broadcast.v", "Array/Run01.v", "Array/MatMul.v", "Array/Index.v", "Array/Select.v", "Array/RunSel.v", "Rules/Stats.v", "Rules/StatsProof.v", "Array/RunStats.v", "Array/Bilinear.v", "Array/BilinearClosed.v", "Array/RunBil.v", "Rules/ComplexRing.v", "Array/RunBilC.v", "Array/Realified.v", "Array/RunReal.v", "Array/LinAlg.v", "Array/RunLin.v"]
 IMPORTS = ("From Coq Require Import List ZArith.\nImport ListNotations.\n"
            "From AG Require Import VSpace VSpaceProof Broadcast Run01 MatMul.\nLocal Open Scope Z_scope.\n")
 
@@ -127,9 +127,10 @@ def term_bil(c):
     S = C.clist(["(mk %s %s %s %s)" % (C.cnat(a), C.cnat(b), C.cnat(o), C.cz(k)) for a, b, o, k in c["S"]])
     oj = lambda j: "None" if j is None else "(Some %s)" % zl(j)  # noqa: E731
     return ("{| l_na := %s; l_nb := %s; l_no := %s; l_S := %s; l_A := %s; l_B := %s; l_g := %s; l_dA := %s; l_dB := %s; l_val := %s; "
-            "l_vjpA := %s; l_vjpB := %s; l_jvpA := %s; l_jvpB := %s; l_ok := %s |}"
+            "l_vjpA := %s; l_vjpB := %s; l_jvpA := %s; l_jvpB := %s; l_u := %s; l_vvg := %s; l_vvB := %s; l_fvB := %s; l_ok := %s |}"
             % (C.cnat(c["na"]), C.cnat(c["nb"]), C.cnat(c["no"]), S, zl(c["A"]), zl(c["B"]), zl(c["g"]), zl(c["dA"]), zl(c["dB"]),
-               zl(c["val"]), zl(c["vjpA"]), zl(c["vjpB"]), oj(c["jvpA"]), oj(c["jvpB"]), C.cbool(c["ok"])))
+               zl(c["val"]), zl(c["vjpA"]), zl(c["vjpB"]), oj(c["jvpA"]), oj(c["jvpB"]), zl(c["u"]), oj(c["vvg"]), oj(c["vvB"]), oj(c["fvB"]),
+               C.cbool(c["ok"])))
 
 
 def run_bilinear(res, tag, seed):
